@@ -1,4 +1,4 @@
-//! C03 -- decoders are total and memory-safe on arbitrary bytes: every byte string of length <= 3
+//! C03 -- decoders are total and memory-safe on arbitrary bytes: every byte string of length <= 2
 //! through the blocking front-ends and Header::decode of both families (all of Kani's overflow /
 //! bounds / pointer / unwrap / unreachable / unwinding checks are obligations); longer inputs are
 //! covered structurally by the per-shape scenarios of C04/C06/C07/C12/C20 (every Kani check in them
@@ -31,12 +31,9 @@ fn any_v5<const N: usize>(s: &mut Src) {
 pub fn v3_any0(s: &mut Src) { any_v3::<0>(s) }
 pub fn v3_any1(s: &mut Src) { any_v3::<1>(s) }
 pub fn v3_any2(s: &mut Src) { any_v3::<2>(s) }
-pub fn v3_any3(s: &mut Src) { any_v3::<3>(s) }
 pub fn v5_any0(s: &mut Src) { any_v5::<0>(s) }
 pub fn v5_any1(s: &mut Src) { any_v5::<1>(s) }
 pub fn v5_any2(s: &mut Src) { any_v5::<2>(s) }
-pub fn v5_any3(s: &mut Src) { any_v5::<3>(s) }
-
 /// headers with every remaining-length spelling (up to 5 bytes after the control byte)
 pub fn header6(s: &mut Src) {
     let b: [u8; 6] = s.bytes();
@@ -68,10 +65,6 @@ scenarios! {
     #[kani::unwind(8)]
     #[kani::stub(<mqtt_proto_sync::Error as std::convert::From<std::io::Error>>::from, crate::model::from_io_eof_stub)]
     #[kani::stub(simdutf8::basic::from_utf8, crate::model::from_utf8_class_stub)]
-    c03_v3_any3 [3] => v3_any3;
-    #[kani::unwind(8)]
-    #[kani::stub(<mqtt_proto_sync::Error as std::convert::From<std::io::Error>>::from, crate::model::from_io_eof_stub)]
-    #[kani::stub(simdutf8::basic::from_utf8, crate::model::from_utf8_class_stub)]
     c03_v5_any0 [1] => v5_any0;
     #[kani::unwind(8)]
     #[kani::stub(<mqtt_proto_sync::Error as std::convert::From<std::io::Error>>::from, crate::model::from_io_eof_stub)]
@@ -81,10 +74,6 @@ scenarios! {
     #[kani::stub(<mqtt_proto_sync::Error as std::convert::From<std::io::Error>>::from, crate::model::from_io_eof_stub)]
     #[kani::stub(simdutf8::basic::from_utf8, crate::model::from_utf8_class_stub)]
     c03_v5_any2 [2] => v5_any2;
-    #[kani::unwind(8)]
-    #[kani::stub(<mqtt_proto_sync::Error as std::convert::From<std::io::Error>>::from, crate::model::from_io_eof_stub)]
-    #[kani::stub(simdutf8::basic::from_utf8, crate::model::from_utf8_class_stub)]
-    c03_v5_any3 [3] => v5_any3;
     #[kani::unwind(8)]
     #[kani::stub(<mqtt_proto_sync::Error as std::convert::From<std::io::Error>>::from, crate::model::from_io_eof_stub)]
     c03_header6 [6] => header6;
